@@ -12,7 +12,7 @@ Line-protocol driver shared by C12 and C14.  The first integer of the configurat
                 kind 0 stream IN / 1 stream OUT / 2 status IN
        input  : one host event, encoding of harness/common/devharness.py `encode_event`
        output : `legal address configuration rKind rPid rLen byte*  nApp app*`
-                (app = bytes accepted by a `produce`, FIFO entries delivered by a `consume`)
+                (app = bytes accepted by a `produce`, FIFO entries byte + 256·last + 512·first delivered by a `consume`)
   1  cycle-level `USBStreamInEndpoint` control path (`InGate.epStep`)
        config : `# 1 mps endpoint_number`
        input  : tokEp isIn rfr newToken ack sValid sLast flush discard chEnable chDir chNum txReady
